@@ -277,7 +277,14 @@ def select_cases(cases: list[dict[str, Any]], tier: str, seed: int) -> tuple[lis
     non_ctrlc = [i for i in idx if cases[i]["c"]["how"] != "CtrlC"]
     ctrlc = [i for i in idx if cases[i]["c"]["how"] == "CtrlC"]
     if tier == "thorough":
-        inproc, cli = non_ctrlc, idx
+        # every case once in its canonical mode (SIGINT cases need a process of their own), plus the
+        # non-SIGINT cases of 4 resource sets a second time as real processes (real exit status)
+        def twice(c: dict[str, Any]) -> bool:
+            r = (c["art"], c["db"], c["lock"], c["hooks"])
+            return r in ((True, True, True, True), (False, False, False, False), (True, True, False, False),
+                         (False, False, True, True))
+
+        inproc, cli = non_ctrlc, ctrlc + [i for i in non_ctrlc if twice(cases[i]["c"])]
     else:
         def res_sel(c: dict[str, Any]) -> bool:
             r = (c["art"], c["db"], c["lock"], c["hooks"])
@@ -296,6 +303,11 @@ def select_cases(cases: list[dict[str, Any]], tier: str, seed: int) -> tuple[lis
         cli = full + sorted(rnd.sample(rest, min(10, len(rest)))) + sorted(rnd.sample(some_other, min(10, len(some_other))))
     a = [{"id": i, "c": cases[i]["c"], "expect": cases[i]["expect"]} for i in inproc]
     b = [{"id": CLI_BASE + i, "c": cases[i]["c"], "expect": cases[i]["expect"]} for i in cli]
+    if tier == "thorough":
+        for cs in b:  # the default `--ping` (0.5 s each) only where it is affordable
+            c = cs["c"]
+            if c["kind"] == "UDSScanner" and c["art"] and c["db"] and c["lock"] and c["hooks"]:
+                cs["ping"] = True
     return a, b
 
 
@@ -457,9 +469,10 @@ def run(tier: str, seed: int) -> Report:
                              "cli_sigint": sum(1 for cs in cli if cs["c"]["how"] == "CtrlC")}
     rep.exhaustive = tier == "thorough"
     rep.extra["exhaustive_space"] = (
-        "thorough: all 1696 TLC cases in cli mode (incl. all 208 real-SIGINT cases) and all 1488 non-SIGINT cases "
-        "again in inproc mode; quick: Script kind x all 16 resource sets, scanner kinds x 4 resource sets (inproc), "
-        "all SIGINT cases with every resource on + seeded samples (cli)")
+        "thorough: the complete TLC case space (1696 cases): all 1488 non-SIGINT cases in inproc mode, all 208 "
+        "real-SIGINT cases in cli mode, plus the non-SIGINT cases of 4 resource sets again in cli mode; "
+        "quick: Script kind x all 16 resource sets, scanner kinds x 4 resource sets (inproc), all SIGINT cases with "
+        "every resource on + seeded samples (cli)")
     rep.extra["deviations_modelled"] = DEV_NAMES
     return rep
 
@@ -469,17 +482,22 @@ def replay(path: str) -> int:
     bench = Bench()
     bad = 0
     try:
-        for k, v in enumerate(data["violations"]):
+        todo: dict[tuple[Any, ...], dict[str, Any]] = {}
+        for v in data["violations"]:
             d = v["detail"]
-            cs = {"id": (CLI_BASE if d["mode"] == "cli" else 0) + k, "c": d["case"]}
-            if d["mode"] == "cli":
-                o = run_cli_case(bench, cs)["o"]
-            else:
-                o = run_inproc_shard(bench, k, [cs])[0]["o"]
-            vd, _ = validate([{"id": cs["id"], "c": cs["c"], "o": o}])
+            if "case" not in d:
+                continue  # a design-layer violation: nothing to execute
+            key = (d["mode"],) + case_key(d["case"])
+            if key not in todo:
+                todo[key] = {"id": (CLI_BASE if d["mode"] == "cli" else 0) + len(todo), "c": d["case"]}
+        obs = execute(bench, [cs for k, cs in todo.items() if k[0] == "inproc"],
+                      [cs for k, cs in todo.items() if k[0] == "cli"])
+        traces = [{"id": cs["id"], "c": cs["c"], "o": obs[cs["id"]]} for cs in todo.values()]
+        vd, _ = validate(traces) if traces else ({}, [])
+        for k, cs in todo.items():
             r = vd[cs["id"]]
-            print(f"replay mode={d['mode']} case={json.dumps(d['case'], sort_keys=True)} verdict={r['verdict']} "
-                  f"broken={r['labels']} explained_by={r['explain']}")
+            print(f"replay mode={k[0]} case={json.dumps(cs['c'], sort_keys=True)} verdict={r['verdict']} "
+                  f"broken={r['labels']} explained_by={[DEV_NAMES.get(d, d) for d in r['explain']]}")
             bad += r["verdict"] != "ok"
     finally:
         bench.close()
